@@ -3,24 +3,15 @@
 From Coq Require Import List NArith Bool.
 From HV Require Import Cursor Model Spec.
 From HV.Generated Require Import Lib.
-From HV.Proofs Require Import Chunk TieChunk.
+From HV.Proofs Require Import Chunk TieChunk SrcChunk.
 Import ListNotations.
 
 (* ---- tie to the source: `parse_chunk_size` as translated from /repo/src/lib.rs on this run
    (Generated/Lib.v; macros expanded from macros.rs; one overflow guard per + - * in the width
    rustc infers), run the way the Rust entry point runs it ---- *)
-Definition src_parse_chunk_size (dbg : bool) (buf : list N) : status * N :=
-  match g_parse_chunk_size dbg (S (length buf)) (cur_new buf) with
-  | Done (n, size) _ => (Complete n, size)
-  | Part => (Partial, 0%N)
-  | Fail e => (Error e, 0%N)
-  | Fault f => (Faulted f, 0%N)
-  end.
-
 Theorem src_chunk_is_model : forall dbg buf, src_parse_chunk_size dbg buf = parse_chunk_size dbg buf.
 Proof.
-  intros dbg buf. unfold src_parse_chunk_size, parse_chunk_size. rewrite tie_chunk.
-  destruct (chunk_loop _ _ _ _ _ _ _); reflexivity.
+  exact src_parse_chunk_size_eq.
 Qed.
 Print Assumptions src_chunk_is_model.
 
